@@ -84,6 +84,12 @@ class UnusedTranslator:
                 ASTType.ShowTerm,
             ):
                 self._add_usage(stm.body)
+            if stm.ast_type in (ASTType.External, ASTType.Edge, ASTType.Heuristic, ASTType.ProjectAtom, ASTType.ShowTerm):
+                # statements that are neither rules nor objectives are passed through verbatim:
+                # the predicates in their bodies keep every argument, also the anonymous ones
+                for func in collect_ast(stm, "Function"):
+                    pred = Predicate(func.name, len(func.arguments))
+                    self.used_positions[pred].update(range(0, pred.arity))
             if stm.ast_type == ASTType.Rule and stm.head.ast_type in (
                 ASTType.TheoryAtom,
                 ASTType.Disjunction,
